@@ -93,6 +93,11 @@ func (r *runner) explore(n int) []string {
 		r.ds = r.rec
 		r.newStore()
 		startOK := r.s.Start(ctx) == nil
+		if !startOK {
+			// a Store that refuses to start on a crash image is the observation (nothing to probe: its loop is not running)
+			out = append(out, fmt.Sprintf("Crash %s false None [] None", emit.Nat(k)))
+			continue
+		}
 		quiesce()
 		p1 := r.probe()
 		// continuation: everything from above the reopened head (or tail, or 0) up to two above the highest stored height
